@@ -91,3 +91,6 @@ func NthRet[T any](s string, n int, i int) T { var z T; return z }
 
 // DynPtrTo(ret, content): ret holds a non-nil pointer to the dynamic type of content.
 func DynPtrTo(ret any, content any) bool { return false }
+
+// SentOn reports that some value was sent on ch on this path.
+func SentOn[T any](ch chan T) bool { return false }
